@@ -493,6 +493,26 @@ fn natural_pairs(args: &Args) {
     for (i, a) in ops.iter().enumerate() {
         per_operand(&mut h, a, &mut rng, thorough || i % 6 == 0);
     }
+    // conversion to f64 around the rounding boundaries: mantissas of 53, 54,
+    // 55.. bits whose low bits are just below / at / above the half-way point,
+    // and exponents that bring the value next to 2^1024
+    for n in [52usize, 53, 54, 55, 56, 63, 64, 65, 66, 107, 128, 129] {
+        for low in [0u64, 1, 2, 3, 4, 5, 6, 7, 0xffff, 0xfffe, 0xfffd] {
+            for fill_ones in [false, true] {
+                let mut d = pow2_digits(n - 1, 0);
+                if fill_ones {
+                    d = pow2_digits(n, -1);
+                    d[0] &= !0xffffu64;
+                }
+                d[0] |= low;
+                let a = mk_nat(&d);
+                nat_f64(&mut h, &a);
+                for s in [1u64, 900, 1024 - n as u64 - 1, 1024 - n as u64, 1024 - n as u64 + 1] {
+                    nat_f64(&mut h, &(a.clone() << s));
+                }
+            }
+        }
+    }
     for a in &ops {
         for b in &ops {
             nat_add(&mut h, a, b);
